@@ -312,6 +312,31 @@ func (fr *Frame) enterLoop(li *loopInfo, in *State) *State {
 		} else if ex.houdini && !fr.inline {
 			cands = all
 		}
+		if ex.houdini && !fr.inline && ex.P.houdiniPhase == 1 {
+			// phase 1: only the cheap (quantifier-free) candidates
+			var nc []autoInv
+			for _, c := range cands {
+				if !isFrameCand(c.label) {
+					nc = append(nc, c)
+				}
+			}
+			cands = nc
+		}
+		if !fr.inline && ex.P.houdiniPhase == 2 {
+			// phase 2: survivors of phase 1 stay; frame candidates are added
+			keep1 := ex.P.autoInv[fr.loopKey(li)+"#phase1"]
+			var nc []autoInv
+			for _, c := range all {
+				if isFrameCand(c.label) {
+					if ex.houdini || ex.P.autoInv[fr.loopKey(li)][c.label] {
+						nc = append(nc, c)
+					}
+				} else if keep1[c.label] {
+					nc = append(nc, c)
+				}
+			}
+			cands = nc
+		}
 		if li.spec != nil {
 			// bounds come from the declared invariants; keep only the frame-like candidates
 			var fc []autoInv
@@ -499,4 +524,9 @@ func (fr *Frame) localByNameAt(name string, b *ssa.BasicBlock, li *loopInfo, st 
 		return fr.ex.load(st, fr.ex.ptrLoc(v), best.Type().(*types.Pointer).Elem()), true
 	}
 	return v, true
+}
+
+
+func isFrameCand(label string) bool {
+	return strings.HasPrefix(label, "frame ") || strings.HasPrefix(label, "keep ")
 }
